@@ -678,9 +678,13 @@ class FileSet:
         # Find all overlapping files. Or has the user already given some
         # matches to us?
         if matches is None:
-            matches = list(
-                self.match(other, start, end, max_interval=max_interval)
-            )
+            matches = self.match(other, start, end, max_interval=max_interval)
+
+        # The matches are needed several times (match() is a generator):
+        matches = list(matches)
+        if not matches:
+            return
+
         primaries, secondaries = zip(*matches)
 
         # We have to consider the following to make the align method work
